@@ -347,6 +347,10 @@ impl Write for PeerWrite {
         if n < data.len() {
             p.ch.note("short-write");
         }
+        if p.eof {
+            // the server is gone (seen at a quiescent point, so at the same byte every time)
+            return Err(io::Error::new(io::ErrorKind::BrokenPipe, "server closed the connection"));
+        }
         match p.stdin.as_mut() {
             Some(s) => {
                 // the pipe may be full while the server is itself blocked writing to us: keep its output moving
@@ -372,6 +376,9 @@ impl Write for PeerWrite {
                     }
                 }
                 p.sent.extend_from_slice(&data[..n]);
+                // Let the server take what it was given before the client goes on: whether (and when) the server gives
+                // up on the conversation is then a function of the bytes it has seen, not of how fast it runs.
+                p.pump_raw();
                 Ok(n)
             }
             None => Err(io::Error::new(io::ErrorKind::BrokenPipe, "peer stdin closed")),
